@@ -1,7 +1,9 @@
 package main
 
 import (
+	"fmt"
 	"go/ast"
+	"go/token"
 	"strings"
 )
 
@@ -219,6 +221,616 @@ func (e *emitter) c04GuardedDef(s *source, rel, goName, lean string, keys []stri
 	e.stringList(lean, "guarded statements of `"+goName+"` in "+rel+" mentioning "+strings.Join(keys, " / "), out)
 }
 
+
+// ---------------------------------------------------------------------------------------------------------------
+// c04sem: a small Go -> Lean translator for the DECISION-MAKING part of the timeout wrappers: which timeout is selected,
+// under which condition the wrapper wraps, and which context reaches the work / the select.  Values:
+//   time.Duration -> Int,  context.Context -> Option Int (its deadline),  method names -> Nat ("" = 0),
+//   map[string]time.Duration -> List (Nat × Int) with mapGet/mapSet,  grpc.CallOption -> Option Int (some t = TimeoutCallOption{t}),
+//   fx.DoOption -> Option Int (the deadline of the context it returns),  request headers -> String → String.
+// A function body becomes one Lean expression: the value returned (value mode) or the expression that reaches the SINK
+// (the context argument of handler(...) / invoker(...) / ServeHTTP(tw, r), or the context whose Done() is selected).
+// Anything outside the subset fails loudly (extraction error + a `Unit` definition that breaks the Tie).
+type c04sem struct {
+	s      *source
+	sink   func(n ast.Node) ast.Expr // the sink expression inside n, or nil
+	fields map[string]string         // struct field -> Lean projection suffix ("" = the value itself)
+	funcs  map[string]bool           // translated functions that may be called
+	thunks map[string]bool           // identifiers whose call `x()` is the value x itself
+}
+
+type c04semErr struct{ msg string }
+
+func (c *c04sem) fail(format string, a ...any) { panic(c04semErr{fmt.Sprintf(format, a...)}) }
+
+func (c *c04sem) selector(e ast.Expr) string {
+	switch x := e.(type) {
+	case *ast.Ident:
+		return x.Name
+	case *ast.SelectorExpr:
+		return c.selector(x.X) + "." + x.Sel.Name
+	}
+	c.fail("unsupported selector %s", c.s.src(e))
+	return ""
+}
+
+func (c *c04sem) ex(e ast.Expr) string {
+	switch x := e.(type) {
+	case *ast.ParenExpr:
+		return c.ex(x.X)
+	case *ast.Ident:
+		return leanIdent(x.Name)
+	case *ast.BasicLit:
+		if x.Kind == token.INT {
+			return x.Value
+		}
+		if x.Kind == token.STRING && x.Value == `""` {
+			return "0" // the empty method name
+		}
+		c.fail("unsupported literal %s", x.Value)
+	case *ast.SelectorExpr:
+		if suf, ok := c.fields[x.Sel.Name]; ok {
+			if suf == "" {
+				return c.ex(x.X)
+			}
+			return "(" + c.ex(x.X) + ")" + suf
+		}
+		return leanIdent(c.selector(x))
+	case *ast.UnaryExpr:
+		if x.Op == token.NOT {
+			return "(!" + c.ex(x.X) + ")"
+		}
+		if x.Op == token.SUB {
+			return "(-" + c.ex(x.X) + ")"
+		}
+	case *ast.BinaryExpr:
+		a, b := c.ex(x.X), c.ex(x.Y)
+		switch x.Op {
+		case token.EQL:
+			return "(" + a + " == " + b + ")"
+		case token.NEQ:
+			return "(" + a + " != " + b + ")"
+		case token.LSS, token.LEQ, token.GTR, token.GEQ:
+			op := map[token.Token]string{token.LSS: "<", token.LEQ: "≤", token.GTR: ">", token.GEQ: "≥"}[x.Op]
+			return "(decide (" + a + " " + op + " " + b + "))"
+		case token.LAND:
+			return "(" + a + " && " + b + ")"
+		case token.LOR:
+			return "(" + a + " || " + b + ")"
+		case token.ADD, token.SUB, token.MUL:
+			return "(" + a + " " + x.Op.String() + " " + b + ")"
+		}
+	case *ast.CallExpr:
+		fn := ""
+		if _, ok := x.Fun.(*ast.FuncLit); !ok {
+			fn = c.selector(x.Fun)
+		}
+		switch {
+		case fn == "context.WithTimeout" && len(x.Args) == 2:
+			return "(wt " + c.ex(x.Args[0]) + " now " + c.ex(x.Args[1]) + ")"
+		case fn == "context.Background" && len(x.Args) == 0:
+			return "(none : Option Int)"
+		case strings.HasSuffix(fn, ".Context") && len(x.Args) == 0:
+			return leanIdent(strings.TrimSuffix(fn, ".Context") + ".ctx")
+		case strings.HasSuffix(fn, ".Header.Get") && len(x.Args) == 1:
+			return "(" + leanIdent(strings.TrimSuffix(fn, ".Header.Get")+".hdr") + " " + c.ex(x.Args[0]) + ")"
+		case fn == "make" && len(x.Args) >= 1 && (c.s.src(x.Args[0]) == "methodTimeouts" || strings.HasPrefix(c.s.src(x.Args[0]), "map[")):
+			return "([] : List (Nat × Int))"
+		case c.thunks[fn] && len(x.Args) == 0:
+			return leanIdent(fn)
+		case c.funcs[fn]:
+			parts := []string{fn}
+			for _, a := range x.Args {
+				parts = append(parts, c.ex(a))
+			}
+			return "(" + strings.Join(parts, " ") + ")"
+		}
+		c.fail("unsupported call %s", c.s.src(x))
+	}
+	c.fail("unsupported expression %s", c.s.src(e))
+	return ""
+}
+
+func (c *c04sem) findSink(n ast.Node) ast.Expr {
+	if c.sink == nil || n == nil {
+		return nil
+	}
+	var found ast.Expr
+	ast.Inspect(n, func(m ast.Node) bool {
+		if found != nil || m == nil {
+			return false
+		}
+		if e := c.sink(m); e != nil {
+			found = e
+			return false
+		}
+		return true
+	})
+	return found
+}
+
+func c04Terminates(list []ast.Stmt) bool {
+	if len(list) == 0 {
+		return false
+	}
+	_, ok := list[len(list)-1].(*ast.ReturnStmt)
+	return ok
+}
+
+// st translates a statement list; k is the expression to yield when the list runs out ("" = that is an error).
+func (c *c04sem) st(list []ast.Stmt, k string) string {
+	if len(list) == 0 {
+		if k == "" {
+			c.fail("statement list ends without a value")
+		}
+		return k
+	}
+	head, rest := list[0], list[1:]
+	switch x := head.(type) {
+	case *ast.DeferStmt, *ast.DeclStmt:
+		if c.findSink(x) == nil {
+			return c.st(rest, k)
+		}
+	case *ast.AssignStmt:
+		if c.findSink(x) == nil {
+			// m[k] = v
+			if ix, ok := x.Lhs[0].(*ast.IndexExpr); ok && len(x.Lhs) == 1 && x.Tok == token.ASSIGN {
+				m := c.ex(ix.X)
+				return fmt.Sprintf("let %s := mapSet %s %s %s\n  %s", m, m, c.ex(ix.Index), c.ex(x.Rhs[0]), c.st(rest, k))
+			}
+			if len(x.Rhs) == 1 && (x.Tok == token.ASSIGN || x.Tok == token.DEFINE) {
+				// r = r.WithContext(ctx): the request's context becomes ctx
+				if call, ok := x.Rhs[0].(*ast.CallExpr); ok && len(x.Lhs) == 1 {
+					if sel, ok := call.Fun.(*ast.SelectorExpr); ok && sel.Sel.Name == "WithContext" && len(call.Args) == 1 &&
+						c.s.src(sel.X) == c.s.src(x.Lhs[0]) {
+						return fmt.Sprintf("let %s := %s\n  %s", leanIdent(c.s.src(sel.X)+".ctx"), c.ex(call.Args[0]), c.st(rest, k))
+					}
+				}
+				lhs, ok := x.Lhs[0].(*ast.Ident)
+				if ok {
+					if v, ok := c.try(x.Rhs[0]); ok {
+						return fmt.Sprintf("let %s := %s\n  %s", leanIdent(lhs.Name), v, c.st(rest, k))
+					}
+					return c.st(rest, k) // a value outside the subset (channel, writer, …): not bound; a later use breaks the build
+				}
+			}
+			c.fail("unsupported assignment %s", c.s.src(x))
+		}
+	case *ast.IfStmt:
+		thenList := x.Body.List
+		if !c04Terminates(thenList) {
+			thenList = append(append([]ast.Stmt{}, thenList...), rest...)
+		}
+		elseList := rest
+		if x.Else != nil {
+			if b, ok := x.Else.(*ast.BlockStmt); ok {
+				elseList = b.List
+			} else {
+				elseList = []ast.Stmt{x.Else}
+			}
+			if !c04Terminates(elseList) {
+				elseList = append(append([]ast.Stmt{}, elseList...), rest...)
+			}
+		}
+		if x.Init != nil {
+			// if v, ok := m[key]; ok { … }
+			as, ok := x.Init.(*ast.AssignStmt)
+			cond, ok2 := x.Cond.(*ast.Ident)
+			if ok && ok2 && len(as.Lhs) == 2 && len(as.Rhs) == 1 && c.s.src(as.Lhs[1]) == cond.Name {
+				if ix, ok := as.Rhs[0].(*ast.IndexExpr); ok {
+					return fmt.Sprintf("match mapGet %s %s with\n  | some %s => %s\n  | none => %s", c.ex(ix.X), c.ex(ix.Index),
+						c.ex(as.Lhs[0]), c.st(thenList, k), c.st(elseList, k))
+				}
+			}
+			c.fail("unsupported if-initialiser %s", c.s.src(x.Init))
+		}
+		return fmt.Sprintf("if %s then\n  (%s)\n  else\n  (%s)", c.ex(x.Cond), c.st(thenList, k), c.st(elseList, k))
+	case *ast.RangeStmt:
+		if c.findSink(x) == nil {
+			v := "_"
+			if x.Value != nil {
+				v = c.ex(x.Value)
+			}
+			// for _, v := range xs { if o, ok := v.(T); ok { return E } }
+			if len(x.Body.List) == 1 {
+				if ifs, ok := x.Body.List[0].(*ast.IfStmt); ok && ifs.Init != nil && ifs.Else == nil {
+					if as, ok := ifs.Init.(*ast.AssignStmt); ok && len(as.Lhs) == 2 && len(as.Rhs) == 1 {
+						if ta, ok := as.Rhs[0].(*ast.TypeAssertExpr); ok && c.s.src(ifs.Cond) == c.s.src(as.Lhs[1]) &&
+							c.s.src(ta.X) == c.s.src(x.Value) && c.s.src(ta.Type) == "TimeoutCallOption" && c04Terminates(ifs.Body.List) {
+							return fmt.Sprintf("match (%s).findSome? (fun %s => match %s with | some %s => some (%s) | none => none) with\n  | some r => r\n  | none => %s",
+								c.ex(x.X), v, v, c.ex(as.Lhs[0]), c.st(ifs.Body.List, ""), c.st(rest, k))
+						}
+					}
+				}
+			}
+			// a loop that updates ONE outer variable: a left fold
+			var target string
+			ast.Inspect(x.Body, func(n ast.Node) bool {
+				if as, ok := n.(*ast.AssignStmt); ok && as.Tok == token.ASSIGN && len(as.Lhs) == 1 {
+					t := ""
+					switch l := as.Lhs[0].(type) {
+					case *ast.Ident:
+						t = l.Name
+					case *ast.IndexExpr:
+						t = c.s.src(l.X)
+					}
+					if t == "" || (target != "" && target != t) {
+						target = "?"
+					} else {
+						target = t
+					}
+				}
+				return true
+			})
+			if target == "" || target == "?" {
+				c.fail("unsupported loop %s", c.s.src(x))
+			}
+			t := leanIdent(target)
+			return fmt.Sprintf("let %s := (%s).foldl (fun %s %s => %s) %s\n  %s", t, c.ex(x.X), t, v, c.st(x.Body.List, t), t, c.st(rest, k))
+		}
+	case *ast.ReturnStmt:
+		if c.sink == nil {
+			if len(x.Results) != 1 {
+				c.fail("unsupported return %s", c.s.src(x))
+			}
+			return c.ex(x.Results[0])
+		}
+		// return func(…) { … }: the closure's body is what runs per call
+		if len(x.Results) == 1 {
+			if fl, ok := x.Results[0].(*ast.FuncLit); ok {
+				return c.st(fl.Body.List, k)
+			}
+		}
+	}
+	if e := c.findSink(head); e != nil {
+		return c.ex(e)
+	}
+	switch head.(type) {
+	case *ast.ExprStmt, *ast.GoStmt, *ast.SelectStmt, *ast.ReturnStmt:
+		if _, isRet := head.(*ast.ReturnStmt); isRet {
+			c.fail("return without the sink: %s", c.s.src(head))
+		}
+		return c.st(rest, k)
+	}
+	c.fail("unsupported statement %s", c.s.src(head))
+	return ""
+}
+
+func (c *c04sem) try(e ast.Expr) (s string, ok bool) {
+	defer func() {
+		if r := recover(); r != nil {
+			if _, is := r.(c04semErr); is {
+				s, ok = "", false
+				return
+			}
+			panic(r)
+		}
+	}()
+	return c.ex(e), true
+}
+
+// c04SemDef emits `def <lean> <sig> := <translation of the body of goName>`.
+func (e *emitter) c04SemDef(c *c04sem, rel, goName, lean, sig string, sink func(n ast.Node) ast.Expr) {
+	fd := c.s.findFunc(rel, goName)
+	if fd == nil {
+		e.errors = append(e.errors, "function "+goName+" not found in "+rel)
+		e.printf("/-- MISSING: %s in %s -/\ndef %s : Unit := ()\n\n", goName, rel, lean)
+		return
+	}
+	c.sink = sink
+	var body string
+	func() {
+		defer func() {
+			if r := recover(); r != nil {
+				te, ok := r.(c04semErr)
+				if !ok {
+					panic(r)
+				}
+				e.errors = append(e.errors, goName+" ("+lean+"): "+te.msg)
+				body = ""
+			}
+		}()
+		body = c.st(fd.Body.List, "")
+	}()
+	if body == "" {
+		e.printf("/-- UNTRANSLATABLE: %s in %s -/\ndef %s : Unit := ()\n\n", goName, rel, lean)
+		return
+	}
+	e.printf("/-- translated (c04sem) from `%s` in %s -/\ndef %s %s :=\n  %s\n\n", goName, rel, lean, sig, body)
+}
+
+// sink: argument `arg` of a call of `fn`
+func c04SinkCallArg(s *source, fn string, arg int) func(n ast.Node) ast.Expr {
+	return func(n ast.Node) ast.Expr {
+		if call, ok := n.(*ast.CallExpr); ok && len(call.Args) > arg {
+			if _, lit := call.Fun.(*ast.FuncLit); !lit && s.src(call.Fun) == fn {
+				return call.Args[arg]
+			}
+		}
+		return nil
+	}
+}
+
+// sink: the context of the request that is argument 1 of h.handler.ServeHTTP(·, r)
+func c04SinkServeHTTP(s *source) func(n ast.Node) ast.Expr {
+	return func(n ast.Node) ast.Expr {
+		if call, ok := n.(*ast.CallExpr); ok && len(call.Args) == 2 && s.src(call.Fun) == "h.handler.ServeHTTP" {
+			return &ast.CallExpr{Fun: &ast.SelectorExpr{X: call.Args[1], Sel: ast.NewIdent("Context")}}
+		}
+		return nil
+	}
+}
+
+// sink: the context X of `case <-X.Done():` of a select
+func c04SinkSelectDone(s *source) func(n ast.Node) ast.Expr {
+	return func(n ast.Node) ast.Expr {
+		cc, ok := n.(*ast.CommClause)
+		if !ok || cc.Comm == nil {
+			return nil
+		}
+		es, ok := cc.Comm.(*ast.ExprStmt)
+		if !ok {
+			return nil
+		}
+		if u, ok := es.X.(*ast.UnaryExpr); ok && u.Op == token.ARROW {
+			if call, ok := u.X.(*ast.CallExpr); ok {
+				if sel, ok := call.Fun.(*ast.SelectorExpr); ok && sel.Sel.Name == "Done" {
+					return sel.X
+				}
+			}
+		}
+		return nil
+	}
+}
+
+// c04CapturedWrites: names assigned (=, op=, ++/--) inside the per-call closure (or, lit == nil, the function) that are
+// declared outside it — state that survives the call.  Name based: a name declared anywhere inside counts as local.
+func c04CapturedWrites(s *source, body *ast.BlockStmt, params *ast.FieldList) []string {
+	local := map[string]bool{}
+	if params != nil {
+		for _, f := range params.List {
+			for _, n := range f.Names {
+				local[n.Name] = true
+			}
+		}
+	}
+	ast.Inspect(body, func(n ast.Node) bool {
+		switch x := n.(type) {
+		case *ast.AssignStmt:
+			if x.Tok == token.DEFINE {
+				for _, l := range x.Lhs {
+					if id, ok := l.(*ast.Ident); ok {
+						local[id.Name] = true
+					}
+				}
+			}
+		case *ast.ValueSpec:
+			for _, id := range x.Names {
+				local[id.Name] = true
+			}
+		case *ast.RangeStmt:
+			if x.Tok == token.DEFINE {
+				for _, l := range []ast.Expr{x.Key, x.Value} {
+					if id, ok := l.(*ast.Ident); ok {
+						local[id.Name] = true
+					}
+				}
+			}
+		case *ast.FuncLit:
+			for _, f := range x.Type.Params.List {
+				for _, n := range f.Names {
+					local[n.Name] = true
+				}
+			}
+		}
+		return true
+	})
+	var out []string
+	base := func(e ast.Expr) string {
+		for {
+			switch x := e.(type) {
+			case *ast.Ident:
+				return x.Name
+			case *ast.SelectorExpr:
+				e = x.X
+			case *ast.IndexExpr:
+				e = x.X
+			case *ast.StarExpr:
+				e = x.X
+			case *ast.ParenExpr:
+				e = x.X
+			default:
+				return "?" + s.src(e)
+			}
+		}
+	}
+	note := func(e ast.Expr, stmt ast.Node) {
+		b := base(e)
+		if b == "_" || local[b] {
+			// a field / element of a local may still be shared (tw.timedOut): only plain captured names are reported
+			return
+		}
+		out = append(out, s.src(stmt))
+	}
+	ast.Inspect(body, func(n ast.Node) bool {
+		switch x := n.(type) {
+		case *ast.AssignStmt:
+			if x.Tok != token.DEFINE {
+				for _, l := range x.Lhs {
+					note(l, x)
+				}
+			}
+		case *ast.IncDecStmt:
+			note(x.X, x)
+		}
+		return true
+	})
+	return out
+}
+
+func (e *emitter) c04CapturedDef(s *source, rel, goName, lean string, nparams int) {
+	fd := s.findFunc(rel, goName)
+	if fd == nil {
+		e.errors = append(e.errors, "function "+goName+" not found in "+rel)
+		e.stringList(lean, "MISSING: "+goName, []string{"MISSING"})
+		return
+	}
+	body, params := fd.Body, fd.Type.Params
+	if nparams >= 0 {
+		fl := c04FuncLit(fd, nparams, 0)
+		if fl == nil {
+			e.errors = append(e.errors, "closure of "+goName+" not found in "+rel)
+			e.stringList(lean, "MISSING closure: "+goName, []string{"MISSING"})
+			return
+		}
+		body, params = fl.Body, fl.Type.Params
+	}
+	e.stringList(lean, "assignments inside the per-call body of `"+goName+"` ("+rel+") to names declared outside it (state surviving the call)",
+		c04CapturedWrites(s, body, params))
+}
+
+// c04TimeoutHandlerDt: `TimeoutHandler(duration)`: `if <cond> { return func(next) { return next } }; return func(next) {
+// return &timeoutHandler{ handler: next, dt: <E> } }`  ->  `if cond then none else some E`
+func (e *emitter) c04TimeoutHandlerDt(c *c04sem, rel string) {
+	const lean = "timeoutHandlerDt"
+	fd := c.s.findFunc(rel, "TimeoutHandler")
+	var body string
+	func() {
+		defer func() {
+			if r := recover(); r != nil {
+				te, ok := r.(c04semErr)
+				if !ok {
+					panic(r)
+				}
+				e.errors = append(e.errors, "TimeoutHandler: "+te.msg)
+				body = ""
+			}
+		}()
+		if fd == nil {
+			c.fail("not found")
+		}
+		if len(fd.Body.List) != 1 {
+			c.fail("not a single return")
+		}
+		ret0, ok := fd.Body.List[0].(*ast.ReturnStmt)
+		if !ok || len(ret0.Results) != 1 {
+			c.fail("not a single return")
+		}
+		fl, ok := ret0.Results[0].(*ast.FuncLit)
+		if !ok || len(fl.Type.Params.List) != 1 || len(fl.Type.Params.List[0].Names) != 1 {
+			c.fail("middleware is not a func(next)")
+		}
+		next := fl.Type.Params.List[0].Names[0].Name
+		val := func(r *ast.ReturnStmt) string {
+			if len(r.Results) != 1 {
+				c.fail("unsupported return")
+			}
+			if id, ok := r.Results[0].(*ast.Ident); ok && id.Name == next {
+				return "none"
+			}
+			if u, ok := r.Results[0].(*ast.UnaryExpr); ok && u.Op == token.AND {
+				if cl, ok := u.X.(*ast.CompositeLit); ok && c.s.src(cl.Type) == "timeoutHandler" {
+					dt, handler := "", ""
+					for _, el := range cl.Elts {
+						if kv, ok := el.(*ast.KeyValueExpr); ok {
+							switch c.s.src(kv.Key) {
+							case "dt":
+								dt = c.ex(kv.Value)
+							case "handler":
+								handler = c.s.src(kv.Value)
+							}
+						}
+					}
+					if dt != "" && handler == next {
+						return "some " + dt
+					}
+				}
+			}
+			c.fail("unsupported middleware result %s", c.s.src(r))
+			return ""
+		}
+		var wrapOf func(list []ast.Stmt) string
+		wrapOf = func(list []ast.Stmt) string {
+			if len(list) == 0 {
+				c.fail("no return")
+			}
+			switch x := list[0].(type) {
+			case *ast.IfStmt:
+				if x.Init != nil || x.Else != nil || !c04Terminates(x.Body.List) {
+					c.fail("unsupported if")
+				}
+				return fmt.Sprintf("if %s then (%s) else (%s)", c.ex(x.Cond), wrapOf(x.Body.List), wrapOf(list[1:]))
+			case *ast.ReturnStmt:
+				return val(x)
+			}
+			c.fail("unsupported statement %s", c.s.src(list[0]))
+			return ""
+		}
+		body = wrapOf(fl.Body.List)
+	}()
+	if body == "" {
+		e.printf("/-- UNTRANSLATABLE: TimeoutHandler -/\ndef %s : Unit := ()\n\n", lean)
+		return
+	}
+	e.printf("/-- translated (c04sem) from `TimeoutHandler` in %s: the `dt` of the wrapper, `none` = no wrapper -/\ndef %s (duration : Int) : Option Int :=\n  %s\n\n", rel, lean, body)
+}
+
+func (e *emitter) c04Semantic(s *source) {
+	const th = "rest/handler/timeouthandler.go"
+	const srv = "zrpc/internal/serverinterceptors/timeoutinterceptor.go"
+	const cli = "zrpc/internal/clientinterceptors/timeoutinterceptor.go"
+	const fx = "core/fx/timeout.go"
+	e.printf(`/-! ### c04sem: the decision-making part of the wrappers, translated -/
+
+/-- meaning of context.WithTimeout(parent, t) at time now on deadlines (trusted; proven equal to the model's in TieSem) -/
+def wt (parent : Option Int) (now t : Int) : Option Int :=
+  match parent with
+  | none => some (now + t)
+  | some p => some (if p ≤ now + t then p else now + t)
+
+/-- v, ok := m[k] -/
+def mapGet (m : List (Nat × Int)) (k : Nat) : Option Int := (m.find? (fun p => p.1 == k)).map (·.2)
+
+/-- m[k] = v -/
+def mapSet (m : List (Nat × Int)) (k : Nat) (v : Int) : List (Nat × Int) := m.filter (fun p => p.1 != k) ++ [(k, v)]
+
+`)
+	c := &c04sem{s: s, fields: map[string]string{"FullMethod": ".1", "Timeout": ".2", "timeout": ""},
+		funcs: map[string]bool{}, thunks: map[string]bool{"opt": true}}
+	const tbl = "List (Nat × Int)"
+	e.c04SemDef(c, srv, "getTimeoutByUnaryServerInfo", "getTimeoutByUnaryServerInfo",
+		"(method : Nat) (timeouts : "+tbl+") (defaultTimeout : Int) : Int", nil)
+	e.c04SemDef(c, srv, "buildMethodTimeouts", "buildMethodTimeouts", "(timeouts : "+tbl+") : "+tbl, nil)
+	c.funcs["getTimeoutByUnaryServerInfo"], c.funcs["buildMethodTimeouts"] = true, true
+	srvSig := "(timeout : Int) (methodTimeouts : " + tbl + ") (ctx : Option Int) (now : Int) (info_FullMethod : Nat) : Option Int"
+	c.fields = map[string]string{}
+	e.c04SemDef(c, srv, "UnaryTimeoutInterceptor", "srvHandlerCtx", srvSig, c04SinkCallArg(s, "handler", 0))
+	e.c04SemDef(c, srv, "UnaryTimeoutInterceptor", "srvSelectCtx", srvSig, c04SinkSelectDone(s))
+	e.c04CapturedDef(s, srv, "UnaryTimeoutInterceptor", "srvCapturedWrites", 4)
+
+	c.fields = map[string]string{"timeout": ""}
+	e.c04SemDef(c, cli, "getTimeoutFromCallOptions", "getTimeoutFromCallOptions", "(opts : List (Option Int)) (defaultTimeout : Int) : Int", nil)
+	c.funcs["getTimeoutFromCallOptions"] = true
+	e.c04SemDef(c, cli, "TimeoutInterceptor", "cliInvokerCtx", "(timeout : Int) (ctx : Option Int) (now : Int) (opts : List (Option Int)) : Option Int",
+		c04SinkCallArg(s, "invoker", 0))
+	e.c04CapturedDef(s, cli, "TimeoutInterceptor", "cliCapturedWrites", 7)
+	e.c04DetailDef(s, cli, "WithCallTimeout", "cliWithCallTimeout", nil)
+
+	e.c04SemDef(c, fx, "DoWithTimeout", "fxSelectCtx", "(timeout : Int) (opts : List (Option Int)) (now : Int) : Option Int", c04SinkSelectDone(s))
+	e.c04CapturedDef(s, fx, "DoWithTimeout", "fxCapturedWrites", -1)
+	e.c04DetailDef(s, fx, "WithContext", "fxWithContext", func(fd *ast.FuncDecl) *ast.BlockStmt {
+		if fl := c04FuncLit(fd, 0, 0); fl != nil {
+			return fl.Body
+		}
+		return nil
+	})
+
+	e.c04TimeoutHandlerDt(c, th)
+	e.c04SemDef(c, th, "timeoutHandler.ServeHTTP", "restHandlerCtx",
+		"(h_dt : Int) (r_hdr : String → String) (r_ctx : Option Int) (now : Int) : Option Int", c04SinkServeHTTP(s))
+	e.c04CapturedDef(s, th, "timeoutHandler.ServeHTTP", "restCapturedWrites", -1)
+}
+
 func init() {
 	register("C04", func(s *source, e *emitter) {
 		const th = "rest/handler/timeouthandler.go"
@@ -317,5 +929,6 @@ func init() {
 		} else {
 			e.stringList("fxFlow", "MISSING", []string{"MISSING"})
 		}
+		e.c04Semantic(s)
 	})
 }
